@@ -187,6 +187,7 @@ class Target:
         weight: int = 1,
         dpt: type | None = None,
         seq: list[tuple[float, float, float]] | None = None,
+        thorough_only: bool = False,
     ) -> None:
         self.name = name
         self.group = group
@@ -202,6 +203,7 @@ class Target:
         self.weight = weight
         self.dpt = dpt
         self.seq = seq
+        self.thorough_only = thorough_only
         self._grid_cache: list[Any] | None = None
 
     def judged(self, spec: Any) -> bool:
@@ -634,9 +636,12 @@ def build_targets() -> list[Target]:
             )
         )
 
+    sample = _dpt_sample()
     for d in V.all_dpts():
         rng = V.dpt_range(d)
-        common = dict(native=lambda s, d=d: V.dpt_native(d, s), rng=rng, grid=V.dpt_grid(d), dpt=d)
+        # the generic classes delegate to the DPT's encoder: at the quick tier one DPT per distinct encoder
+        # implementation goes through them (every DPT goes through group_value_write below), all at thorough
+        common = dict(native=lambda s, d=d: V.dpt_native(d, s), rng=rng, grid=V.dpt_grid(d), dpt=d, thorough_only=d not in sample)
         ts.append(_rv_target(f"RemoteValueSensor[{d.__name__}]", lambda x, d=d: RemoteValueSensor(x, G, value_type=d), **common))
         if issubclass(d, DPTNumeric):
             ts.append(_rv_target(f"RemoteValueNumeric[{d.__name__}]", lambda x, d=d: RemoteValueNumeric(x, G, value_type=d), mode="value_respond", **common))
@@ -834,7 +839,6 @@ def build_targets() -> list[Target]:
         for meth, pred in (("set_operation_mode", is_op), ("set_controller_mode", is_ct)):
             ts.append(_dev_target(f"ClimateMode.{meth}[{label}]", f"ClimateMode.{meth}", lambda x, mk=mk, meth=meth: (lambda d: (d, getattr(d, meth)))(mk(x)), native=pred, grid=mode_grid, allowed=(DeviceIllegalValue,)))
 
-    sample = _dpt_sample()
     for d in sample:
         rng = V.dpt_range(d)
         common = dict(rng=rng, grid=V.dpt_grid(d), dpt=d)
@@ -933,7 +937,7 @@ def build_targets() -> list[Target]:
                 "mcp.send_group_value_write[dpt]",
                 lambda x, number=number, label=label: ((lambda v: send_group_value_write(x, GroupValueWriteInput(group_address=G, value=v, value_type=number))), label),
                 accepts=_json_only,
-                **common,
+                **{**common, "thorough_only": d not in sample},
             )
         )
     ts.append(
@@ -1006,7 +1010,7 @@ def _grid_shard(ctx, nshards: int, tier_quick: bool) -> None:
     h = Harness()
     try:
         for i, tgt in enumerate(ts):
-            if i % nshards != ctx.shard:
+            if i % nshards != ctx.shard or (tier_quick and tgt.thorough_only):
                 continue
             vals = tgt.grid_values()
             for j, spec in enumerate(vals):
@@ -1020,13 +1024,14 @@ def _grid_shard(ctx, nshards: int, tier_quick: bool) -> None:
 
 def _case_strategy(ts: list[Target]) -> Any:
     """(position in the weighted target list, value program): one static strategy for all targets."""
-    return st.tuples(st.integers(0, sum(t.weight for t in ts) - 1), V.program_strategy())
+    return st.tuples(st.integers(0, 1_000_000), V.program_strategy())
 
 
-def _weighted(ts: list[Target]) -> list[int]:
+def _weighted(ts: list[Target], quick: bool) -> list[int]:
     out: list[int] = []
     for i, t in enumerate(ts):
-        out += [i] * t.weight
+        if not (quick and t.thorough_only):
+            out += [i] * t.weight
     return out
 
 
@@ -1034,11 +1039,11 @@ def _hyp_shard(ctx, n: int) -> None:
     ts = build_targets()
     h = Harness()
 
-    index = _weighted(ts)
+    index = _weighted(ts, ctx.quick)
 
     def oracle(c, case: tuple[int, tuple]) -> None:
         w, prog = case
-        tgt = ts[index[w]]
+        tgt = ts[index[w % len(index)]]
         spec = tgt.from_program(prog)
         if spec is None:
             return
@@ -1052,7 +1057,7 @@ def _hyp_shard(ctx, n: int) -> None:
 
 def run(ctx) -> None:
     ts = build_targets()
-    ctx.notes["targets"] = len(ts)
+    ctx.notes["targets"] = len([t for t in ts if not (ctx.quick and t.thorough_only)])
     ctx.notes["target_groups"] = len({t.group for t in ts})
     nshards = 16
     parallel(ctx, _grid_shard, [(nshards, ctx.quick)] * nshards)
